@@ -195,3 +195,42 @@ func report(c *Ctx, path string, req mon.OpReq, exp Expect, o mon.Outcome, v Ver
 	}
 	c.Violation(sig, "[%s path] %s | request: %s | expectation: %s %s", path, trunc(v.Detail, 500), trunc(req.Describe(), 700), exp.Kind, exp.Why)
 }
+
+// CheckOpsShared runs a sequence of requests that share operand objects
+// (the same *ref.T in several requests is one tensor object for all calls) and
+// judges every call against its own expectation, which is computed from the
+// operand values the caller built. Through the operator API the calls are made
+// one after another; when every request must compute, the sequence is also run
+// as one graph (shared operands = one input or initializer consumed by several
+// nodes), twice on the same loaded model.
+func CheckOpsShared(c *Ctx, reqs []mon.OpReq, exps []Expect, viaModel bool, isInit func(*ref.T) bool, known KnownMatcher) bool {
+	ok := true
+	outs := mon.RunOpsShared(reqs)
+	c.Eval(len(reqs))
+	c.Count("shared-operand-sequences", 1)
+	for j, o := range outs {
+		if v := Judge(exps[j], o); !v.OK {
+			ok = false
+			report(c, fmt.Sprintf("api, call %d of a sequence sharing operand objects", j+1), reqs[j], exps[j], o, v, known)
+		}
+	}
+	if !viaModel {
+		return ok
+	}
+	for _, e := range exps {
+		if e.Kind != MustEqual {
+			return ok
+		}
+	}
+	runs := mon.RunOpsSharedModel(reqs, isInit, c.R.Bool(), 2)
+	for n, per := range runs {
+		c.Eval(len(per))
+		for j, o := range per {
+			if v := Judge(exps[j], o); !v.OK {
+				ok = false
+				report(c, fmt.Sprintf("model, run %d, node %d of a graph sharing operands", n+1, j+1), reqs[j], exps[j], o, v, known)
+			}
+		}
+	}
+	return ok
+}
